@@ -495,21 +495,183 @@ def Agrees (h h' : Nat → Nat → UInt8) (ws : List Write) : Prop :=
 
 /-! ### Tree.Copy -/
 
-theorem treeCopyEff_spec : ∀ (nObj : Nat) (t : List TNode),
-    (treeCopyEff nObj t).map (·.cols) = t.map (·.cols) ∧
-    (treeCopyEff nObj t).map (·.dataArr) = t.map (·.dataArr) ∧
-    (treeCopyEff nObj t).map (·.obj) = (List.range t.length).map (· + nObj) := by
+theorem copyColsEff_nil (b off : Nat) : copyColsEff b off [] = ([], []) := rfl
+
+theorem copyColsEff_none (b off : Nat) (s : SV) (ss : List SV) (hs : s.sl = none) :
+    copyColsEff b off (s :: ss) = (⟨none, s.hi⟩ :: (copyColsEff b off ss).1, (copyColsEff b off ss).2) := by
+  simp [copyColsEff, hs]
+
+theorem copyColsEff_some (b off : Nat) (s : SV) (ss : List SV) (v : View) (hs : s.sl = some v) :
+    copyColsEff b off (s :: ss) =
+      (⟨some ⟨b, off, v.len, v.len⟩, s.hi⟩ :: (copyColsEff b (off + v.len) ss).1,
+        ⟨b, off, v.len⟩ :: (copyColsEff b (off + v.len) ss).2) := by
+  simp [copyColsEff, hs]
+
+/-- what `copyData`'s loop produces: views with the same length and `until` as the originals,
+    all inside buffer `b`, consecutive from `off` (`cap = len`), and writes into `b` only -/
+theorem copyColsEff_spec (b : Nat) : ∀ (cols : List SV) (off : Nat),
+    (copyColsEff b off cols).1.map (fun s => (s.sl.isSome, s.len, s.hi)) = cols.map (fun s => (s.sl.isSome, s.len, s.hi)) ∧
+    (∀ s' ∈ (copyColsEff b off cols).1, ∀ v', s'.sl = some v' →
+      v'.buf = b ∧ v'.cap = v'.len ∧ off ≤ v'.off ∧ v'.off + v'.len ≤ off + colsTotal cols) ∧
+    (∀ w ∈ (copyColsEff b off cols).2, w.buf = b ∧ off ≤ w.off ∧ w.off + w.len ≤ off + colsTotal cols) := by
+  intro cols
+  induction cols with
+  | nil => intro off; simp [copyColsEff_nil]
+  | cons s ss ih =>
+    intro off
+    cases hs : s.sl with
+    | none =>
+      have h := ih off
+      have hl : s.len = 0 := by simp [SV.len, Sl.len, hs]
+      have htot : colsTotal (s :: ss) = colsTotal ss := by simp [colsTotal, hl]
+      rw [copyColsEff_none b off s ss hs, htot]
+      refine ⟨?_, ?_, h.2.2⟩
+      · simp only [List.map_cons, h.1, hs, hl]
+        simp [SV.len, Sl.len]
+      · intro s' hs' v' hv'
+        rcases List.mem_cons.mp hs' with rfl | hs'
+        · simp at hv'
+        · exact h.2.1 s' hs' v' hv'
+    | some v =>
+      have h := ih (off + v.len)
+      have hl : s.len = v.len := by simp [SV.len, Sl.len, hs]
+      have htot : colsTotal (s :: ss) = v.len + colsTotal ss := by simp [colsTotal, hl]
+      rw [copyColsEff_some b off s ss v hs, htot]
+      refine ⟨?_, ?_, ?_⟩
+      · simp only [List.map_cons, h.1, hs, hl]
+        simp [SV.len, Sl.len]
+      · intro s' hs' v' hv'
+        rcases List.mem_cons.mp hs' with rfl | hs'
+        · simp only [Option.some.injEq] at hv'
+          subst hv'
+          exact ⟨rfl, rfl, Nat.le_refl _, by simp only; omega⟩
+        · have := h.2.1 s' hs' v' hv'
+          exact ⟨this.1, this.2.1, by omega, by omega⟩
+      · intro w hw
+        rcases List.mem_cons.mp hw with rfl | hw
+        · exact ⟨rfl, Nat.le_refl _, by simp only; omega⟩
+        · have := h.2.2 w hw
+          exact ⟨this.1, by omega, by omega⟩
+
+theorem treeCopyEff_nil (nObj nArr n : Nat) : treeCopyEff nObj nArr n [] = ⟨[], [], []⟩ := rfl
+
+theorem treeCopyEff_none (nObj nArr n : Nat) (a : TNode) (as : List TNode) (hd : a.data = none) :
+    treeCopyEff nObj nArr n (a :: as) =
+      ⟨⟨nObj, a.dataArr, none⟩ :: (treeCopyEff (nObj + 1) nArr n as).nodes,
+        (treeCopyEff (nObj + 1) nArr n as).allocs, (treeCopyEff (nObj + 1) nArr n as).writes⟩ := by
+  simp [treeCopyEff, hd]
+
+theorem treeCopyEff_some (nObj nArr n : Nat) (a : TNode) (as : List TNode) (cols : List SV) (hd : a.data = some cols) :
+    treeCopyEff nObj nArr n (a :: as) =
+      ⟨⟨nObj, nArr, some (copyColsEff n 0 cols).1⟩ :: (treeCopyEff (nObj + 1) (nArr + 1) (n + 1) as).nodes,
+        colsTotal cols :: (treeCopyEff (nObj + 1) (nArr + 1) (n + 1) as).allocs,
+        (copyColsEff n 0 cols).2 ++ (treeCopyEff (nObj + 1) (nArr + 1) (n + 1) as).writes⟩ := by
+  simp [treeCopyEff, hd]
+
+/-- every view of the copy lies in one of the fresh buffers `[n, n + #allocs)`, and so does
+    every write of the copy -/
+theorem treeCopyEff_fresh : ∀ (t : List TNode) (nObj nArr n : Nat),
+    (∀ nd ∈ (treeCopyEff nObj nArr n t).nodes, ∀ cols, nd.data = some cols → ∀ s' ∈ cols, ∀ v', s'.sl = some v' →
+      n ≤ v'.buf ∧ v'.buf < n + (treeCopyEff nObj nArr n t).allocs.length ∧ v'.cap = v'.len) ∧
+    (∀ w ∈ (treeCopyEff nObj nArr n t).writes,
+      n ≤ w.buf ∧ w.buf < n + (treeCopyEff nObj nArr n t).allocs.length) := by
+  intro t
+  induction t with
+  | nil => intro nObj nArr n; simp [treeCopyEff_nil]
+  | cons a as ih =>
+    intro nObj nArr n
+    cases hd : a.data with
+    | none =>
+      have h := ih (nObj + 1) nArr n
+      rw [treeCopyEff_none nObj nArr n a as hd]
+      refine ⟨?_, h.2⟩
+      intro nd hnd cols hcols s' hs' v' hv'
+      rcases List.mem_cons.mp hnd with rfl | hnd
+      · simp at hcols
+      · exact h.1 nd hnd cols hcols s' hs' v' hv'
+    | some cols0 =>
+      have h := ih (nObj + 1) (nArr + 1) (n + 1)
+      have hc := copyColsEff_spec n cols0 0
+      rw [treeCopyEff_some nObj nArr n a as cols0 hd]
+      simp only [List.length_cons]
+      constructor
+      · intro nd hnd cols hcols s' hs' v' hv'
+        rcases List.mem_cons.mp hnd with rfl | hnd
+        · simp only [Option.some.injEq] at hcols
+          subst hcols
+          have := hc.2.1 s' hs' v' hv'
+          exact ⟨by omega, by omega, this.2.1⟩
+        · have := h.1 nd hnd cols hcols s' hs' v' hv'
+          exact ⟨by omega, by omega, this.2.2⟩
+      · intro w hw
+        rcases List.mem_append.mp hw with hw | hw
+        · have := hc.2.2 w hw
+          exact ⟨by omega, by omega⟩
+        · have := h.2 w hw
+          exact ⟨by omega, by omega⟩
+
+/-- shape of one node's data: nil-ness, and per column (is non-nil, length, until) -/
+def TNode.shape (nd : TNode) : Option (List (Bool × Nat × Int)) :=
+  nd.data.map (fun cols => cols.map (fun s => (s.sl.isSome, s.len, s.hi)))
+
+theorem range_shift (nObj k : Nat) :
+    (List.range (k + 1)).map (· + nObj) = nObj :: (List.range k).map (· + (nObj + 1)) := by
+  rw [List.range_succ_eq_map]
+  simp only [List.map_cons, List.map_map, Nat.zero_add, List.cons.injEq, true_and]
+  apply List.map_congr_left
+  intro i _
+  simp only [Function.comp]
+  omega
+
+/-- the copy has the shape of the original (same nil-ness, lengths and `until`s), new node
+    objects, a new `[]Sequence` array for every node that has data, and one buffer of the
+    summed length per such node -/
+theorem treeCopyEff_shape : ∀ (t : List TNode) (nObj nArr n : Nat),
+    (treeCopyEff nObj nArr n t).nodes.map TNode.shape = t.map TNode.shape ∧
+    (treeCopyEff nObj nArr n t).nodes.map (·.obj) = (List.range t.length).map (· + nObj) ∧
+    (∀ nd ∈ (treeCopyEff nObj nArr n t).nodes, nd.data ≠ none → nArr ≤ nd.dataArr) ∧
+    (treeCopyEff nObj nArr n t).allocs = t.filterMap (fun nd => nd.data.map colsTotal) := by
+  intro t
+  induction t with
+  | nil => intro nObj nArr n; simp [treeCopyEff_nil]
+  | cons a as ih =>
+    intro nObj nArr n
+    cases hd : a.data with
+    | none =>
+      have h := ih (nObj + 1) nArr n
+      rw [treeCopyEff_none nObj nArr n a as hd]
+      refine ⟨?_, ?_, ?_, ?_⟩
+      · simp only [List.map_cons, h.1, TNode.shape, hd, Option.map_none]
+      · simp only [List.map_cons, h.2.1, List.length_cons, range_shift]
+      · intro nd hnd hne
+        rcases List.mem_cons.mp hnd with rfl | hnd
+        · exact absurd rfl hne
+        · exact h.2.2.1 nd hnd hne
+      · simp only [h.2.2.2, List.filterMap_cons, hd, Option.map_none]
+    | some cols0 =>
+      have h := ih (nObj + 1) (nArr + 1) (n + 1)
+      have hc := (copyColsEff_spec n cols0 0).1
+      rw [treeCopyEff_some nObj nArr n a as cols0 hd]
+      refine ⟨?_, ?_, ?_, ?_⟩
+      · simp only [List.map_cons, h.1, TNode.shape, hd, Option.map_some, hc]
+      · simp only [List.map_cons, h.2.1, List.length_cons, range_shift]
+      · intro nd hnd hne
+        rcases List.mem_cons.mp hnd with rfl | hnd
+        · exact Nat.le_refl _
+        · exact Nat.le_trans (Nat.le_succ _) (h.2.2.1 nd hnd hne)
+      · simp only [h.2.2.2, List.filterMap_cons, hd, Option.map_some]
+
+/-- the code before /repo 63b81da: the copy's nodes carry the very same data arrays and views -/
+theorem treeCopyEffShared_spec : ∀ (nObj : Nat) (t : List TNode),
+    (treeCopyEffShared nObj t).map (·.data) = t.map (·.data) ∧
+    (treeCopyEffShared nObj t).map (·.dataArr) = t.map (·.dataArr) ∧
+    (treeCopyEffShared nObj t).map (·.obj) = (List.range t.length).map (· + nObj) := by
   intro nObj t
   induction t generalizing nObj with
-  | nil => simp [treeCopyEff]
+  | nil => simp [treeCopyEffShared]
   | cons a as ih =>
     have := ih (nObj + 1)
-    simp only [treeCopyEff, List.map_cons, this.1, this.2.1, this.2.2, List.length_cons, true_and]
-    rw [List.range_succ_eq_map]
-    simp only [List.map_cons, List.map_map, Nat.zero_add, List.cons.injEq, true_and]
-    apply List.map_congr_left
-    intro i _
-    simp only [Function.comp]
-    omega
+    simp only [treeCopyEffShared, List.map_cons, this.1, this.2.1, this.2.2, List.length_cons, true_and]
+    exact (range_shift nObj as.length).symm
 
 end Zeno
